@@ -258,7 +258,7 @@ Lemma exchange_ok_inv cl r s c subj styp actor req scopes aud s' i x rt lv sc st
   exchange cl r s c subj styp actor req scopes aud = (s', OExch i x rt lv sc sto) ->
   exists k id ssub,
     exch_auth cl r c = Some k /\ read_x (fst s) styp subj = Some (id, ssub) /\ x_live (fst s) styp id = true /\
-    string_in "veto" scopes = false /\ sc = drop_scopes scopes /\
+    string_in "veto" scopes = false /\ sc = decided_scopes (policy (fst s)) scopes /\
     match actor with
     | None => True
     | Some (ta, atyp) => exists aid asub, read_x (fst s) atyp ta = Some (aid, asub) /\
@@ -282,7 +282,9 @@ Proof.
   destruct (string_in "veto" scopes) eqn:V; [destruct req, r; discriminate|].
   intro H. exists k, id, ssub.
   split; [reflexivity|]. split; [reflexivity|]. split; [exact LS|]. split; [reflexivity|]. split.
-  - destruct req; try discriminate; now injection H as _ _ _ _ _ <- _.
+  - destruct req; try discriminate;
+      match type of H with context [effective_type ?p ?q] => destruct (effective_type p q) end;
+      try discriminate; now injection H as _ _ _ _ _ <- _.
   - subst A. destruct actor as [[ta atyp]|]; [|exact I].
     destruct (read_x g atyp ta) as [[aid' asub']|]; [|discriminate].
     injection EA as -> -> ->. exists aid, asub. split; [reflexivity|].
@@ -396,16 +398,17 @@ Proof.
   rewrite C, G. cbn. apply IH. exact U2.
 Qed.
 
-Definition unconfused (i : input) : bool := match i with Hist _ ops => forallb op_unconfused (located ops) end.
+Definition unconfused (i : input) : bool := match i with Hist _ _ ops => forallb op_unconfused (located ops) end.
 
 Theorem spec_model_partial : forall i, unconfused i = true -> spec i (model i) = true.
-Proof. intros [cl ops] U. exact (spec_run_model cl (located ops) init U). Qed.
+Proof. intros [cl pol ops] U. exact (spec_run_model cl (located ops) (init pol) U). Qed.
 
 (* Known finding Fxx-C08-1: a revoked JWT access token, declared as id_token, is accepted as
    exchange subject (the faithful model of the code says so). *)
 Definition refuting_clients := [Client "web" "web-secret" AMBasic false false true true; Client "web2" "web2-secret" AMPost true false true true].
+Definition refstore_policy := TEPolicy true None None false.
 Definition refuting_history :=
-  Hist refuting_clients
+  Hist refuting_clients refstore_policy
     [(0, true, Issue Prov "web2" "bob" ["openid"]);
      (0, true, Revoke Prov (Post "web2" "web2-secret") (PJwt 0 true false (AT 2) "bob" "") false);
      (0, true, Exchange Prov (Basic "web" "web-secret") (PJwt 0 true false (AT 2) "bob" "") TId None TAccess ["openid"] ["web"])].
@@ -413,7 +416,7 @@ Theorem spec_model_refuted : exists i, spec i (model i) = false.
 Proof. exists refuting_history. vm_compute. reflexivity. Qed.
 
 Example spec_model_partial_nonvacuous :
-  let i := Hist refuting_clients
+  let i := Hist refuting_clients refstore_policy
     [(0, true, Issue Leg "web2" "bob" ["openid"; "offline_access"]);
      (0, true, UserInfo Prov (PJwt 0 true false (AT 3) "bob" ""));
      (1, true, UserInfo Prov (PJwt 0 true false (AT 3) "bob" ""));      (* another tenant's issuer: refused *)
@@ -534,13 +537,13 @@ Definition grows (s s' : st) : Prop :=
   snd s <= snd s' /\
   forall m tr, List.In (m, tr) (toks (fst s')) -> List.In (m, tr) (toks (fst s)) \/ (snd s < m /\ m <= snd s').
 
-Lemma grows_filter g nx f rk : grows (g, nx) (Store (filter f (toks g)) rk, nx).
+Lemma grows_filter g nx f rk pl : grows (g, nx) (Store (filter f (toks g)) rk pl, nx).
 Proof. split; [apply Nat.le_refl|]. cbn. intros m tr H. apply filter_In in H as [H _]. now left. Qed.
 
 Lemma grows_refl s : grows s s.
 Proof. split; [apply Nat.le_refl|]. now left. Qed.
 
-Lemma grows_add g nx n t rk nx' : nx < n -> n <= nx' -> grows (g, nx) (Store ((n, t) :: toks g) rk, nx').
+Lemma grows_add g nx n t rk pl nx' : nx < n -> n <= nx' -> grows (g, nx) (Store ((n, t) :: toks g) rk pl, nx').
 Proof.
   intros A B. split; [cbn; lia|]. cbn. intros m tr [[= <- <-]|H]; [right; lia|now left].
 Qed.
@@ -589,10 +592,10 @@ Proof.
   - right. exists (o :: pre), o', post. cbn. repeat split; auto.
 Qed.
 
-Lemma bounded_after cl ops m tr :
-  List.In (m, tr) (toks (fst (state_after cl init ops))) -> m <= snd (state_after cl init ops).
+Lemma bounded_after cl pol ops m tr :
+  List.In (m, tr) (toks (fst (state_after cl (init pol) ops))) -> m <= snd (state_after cl (init pol) ops).
 Proof.
-  intro H. destruct (state_after_grows cl ops init) as [_ G]. destruct (G _ _ H) as [[]|H1]. lia.
+  intro H. destruct (state_after_grows cl ops (init pol)) as [_ G]. destruct (G _ _ H) as [[]|H1]. lia.
 Qed.
 
 Lemma state_after_app cl pre post s : state_after cl s (pre ++ post) = state_after cl (state_after cl s pre) post.
@@ -600,17 +603,17 @@ Proof. revert s. induction pre as [|o pre IH]; intro s; cbn; [reflexivity|apply 
 
 (* revocation is effective from then on: a token that was in the storage when its owner's
    revocation answered 200 is in no later state *)
-Lemma revoke_effective cl pre r c t h post n :
-  let s0 := state_after cl init pre in
+Lemma revoke_effective cl pol pre r c t h post n :
+  let s0 := state_after cl (init pol) pre in
   snd (step cl s0 (Revoke r c t h)) = OOk -> denotes t = AT n ->
   find_tok n (toks (fst s0)) <> None ->
-  find_tok n (toks (fst (state_after cl init (pre ++ Revoke r c t h :: post)))) = None.
+  find_tok n (toks (fst (state_after cl (init pol) (pre ++ Revoke r c t h :: post)))) = None.
 Proof.
   intros s0 OK D EX. rewrite state_after_app. fold s0. cbn [state_after].
   set (s1 := fst (step cl s0 (Revoke r c t h))).
   assert (B : n <= snd s0).
   { destruct (find_tok n (toks (fst s0))) as [tr|] eqn:F; [|congruence].
-    exact (bounded_after cl pre n tr (find_tok_in _ _ _ F)). }
+    exact (bounded_after cl pol pre n tr (find_tok_in _ _ _ F)). }
   assert (N : snd s1 = snd s0 /\ forall tr, ~ List.In (n, tr) (toks (fst s1))).
   { subst s1. destruct s0 as [g nx]. cbn [step fst snd] in *.
     destruct (revoke cl r g c t h) as [g' x] eqn:E. cbn [fst snd] in *. subst x. split; [reflexivity|].
@@ -625,10 +628,10 @@ Qed.
 
 (* logout is effective: after an accepted end_session for (user, client) every token of that
    session found in a later state was minted after the logout *)
-Lemma logout_effective cl pre r hint cid post u k n tr :
-  let s0 := state_after cl init pre in
+Lemma logout_effective cl pol pre r hint cid post u k n tr :
+  let s0 := state_after cl (init pol) pre in
   snd (step cl s0 (EndSession r hint cid)) = ORedirect -> session_of hint cid = Some (u, k) ->
-  find_tok n (toks (fst (state_after cl init (pre ++ EndSession r hint cid :: post)))) = Some tr ->
+  find_tok n (toks (fst (state_after cl (init pol) (pre ++ EndSession r hint cid :: post)))) = Some tr ->
   tr_client tr = k -> tr_sub tr = u -> snd s0 < n.
 Proof.
   intros s0 OK SE F CK CU. rewrite state_after_app in F. fold s0 in F. cbn [state_after] in F.
@@ -649,7 +652,7 @@ Lemma exchange_live_refuted :
     subj_live (fst s) styp subj = false.
 Proof.
   exists refuting_clients,
-    (state_after refuting_clients init
+    (state_after refuting_clients (init refstore_policy)
        [Issue Prov "web2" "bob" ["openid"];
         Revoke Prov (Post "web2" "web2-secret") (Jwt true true false (AT 2) "bob" "") false]),
     Prov, (Basic "web" "web-secret"), (Jwt true true false (AT 2) "bob" ""), TId, None, TAccess, ["openid"], ["web"].
